@@ -259,3 +259,193 @@ pub fn directed(i: usize) -> design::Design {
 pub fn run_directed(args: &Args) {
     crate::run_cases("c12dir", args, move |i| case_fields(&directed(i)));
 }
+
+// ------------------------------------------------------------------------------------------ c12 (pure, IR level)
+
+use fontdrasil::coords::NormalizedLocation;
+use fontdrasil::orchestration::Access;
+use fontdrasil::types::{Axis, GlyphName};
+use fontir::ir;
+use fontir::orchestration::{Context, Flags};
+use kurbo::{Affine, BezPath, PathEl};
+use std::collections::{BTreeMap, HashMap, HashSet};
+
+#[derive(Clone)]
+struct PGlyph {
+    name: String,
+    export: bool,
+    /// per location
+    adv: Vec<f64>,
+    contours: Vec<Vec<Vec<(f64, f64)>>>,
+    comps: Vec<Vec<(String, [f64; 6])>>,
+}
+
+fn pglyph_sexp(g: &PGlyph, l: usize) -> S {
+    S::list([
+        S::str(&g.name), S::f64(g.adv[l]),
+        S::list(g.contours[l].iter().map(|c| S::list(c.iter().map(|(x, y)| S::list([S::f64(*x), S::f64(*y)]))))),
+        S::list(g.comps[l].iter().map(|(b, t)| S::list([S::str(b), S::list(t.iter().map(|v| S::f64(*v)))]))),
+    ])
+}
+
+fn bez(points: &[(f64, f64)]) -> BezPath {
+    let mut p = BezPath::new();
+    for (i, (x, y)) in points.iter().enumerate() {
+        if i == 0 { p.move_to((*x, *y)); } else { p.line_to((*x, *y)); }
+    }
+    p.close_path();
+    p
+}
+
+/// contours of a BezPath as point lists (a closing line back to the start point is not a point of its own)
+fn unbez(p: &BezPath) -> Vec<Vec<(f64, f64)>> {
+    let mut out: Vec<Vec<(f64, f64)>> = vec![];
+    for el in p.elements() {
+        match el {
+            PathEl::MoveTo(q) => out.push(vec![(q.x, q.y)]),
+            PathEl::LineTo(q) => out.last_mut().unwrap().push((q.x, q.y)),
+            PathEl::ClosePath => {
+                let c = out.last_mut().unwrap();
+                if c.len() > 1 && c[0] == c[c.len() - 1] { c.pop(); }
+            }
+            other => panic!("unexpected element {other:?}"),
+        }
+    }
+    out
+}
+
+fn gen_forest(rng: &mut Rng) -> (Vec<PGlyph>, usize) {
+    let nloc = 1 + rng.below(2);
+    let n = 3 + rng.below(7);
+    let mut gs: Vec<PGlyph> = vec![];
+    let mut sizes: Vec<usize> = vec![];
+    let contour = |rng: &mut Rng| -> Vec<(f64, f64)> {
+        let k = 3 + rng.below(3);
+        (0..k).map(|_| (rng.range(-50, 700) as f64, rng.range(-200, 800) as f64)).collect()
+    };
+    let vary = |rng: &mut Rng, c: &Vec<(f64, f64)>| -> Vec<(f64, f64)> { c.iter().map(|(x, y)| (x + rng.range(-40, 40) as f64, y + rng.range(-40, 40) as f64)).collect() };
+    // .notdef first so that GlyphOrderWork neither synthesises nor moves it
+    let nd = contour(rng);
+    gs.push(PGlyph { name: ".notdef".into(), export: true, adv: vec![500.0; nloc], contours: vec![vec![nd]; nloc], comps: vec![vec![]; nloc] });
+    for gi in 0..n {
+        let name = format!("g{gi}");
+        let kind = if gi == 0 { 0 } else { rng.below(10) };
+        let mut c0: Vec<Vec<(f64, f64)>> = vec![];
+        let mut k0: Vec<(String, [f64; 6])> = vec![];
+        if kind <= 2 || kind >= 8 {
+            for _ in 0..1 + rng.below(2) { c0.push(contour(rng)); }
+        }
+        let mut size = c0.len();
+        if kind >= 4 {
+            for _ in 0..1 + rng.below(3) {
+                let bi = rng.below(gi);
+                // keep the fully resolved outline small (the number of paths grows exponentially with nesting)
+                if size + sizes[bi] > 40 { continue; }
+                size += sizes[bi];
+                let base = format!("g{bi}");
+                let m = if rng.chance(2, 5) { [1.0, 0.0, 0.0, 1.0] } else {
+                    let i = rng.below(XFORMS.len() + 6);
+                    XFORMS[if i >= XFORMS.len() { i % (XFORMS.len() - 1) } else { i }]
+                };
+                // half-integer offsets now and then (exact in f64; exercise nothing but exact arithmetic)
+                let h = if rng.chance(1, 6) { 0.5 } else { 0.0 };
+                k0.push((base, [m[0], m[1], m[2], m[3], rng.range(-300, 300) as f64 + h, rng.range(-300, 300) as f64]));
+            }
+        }
+        // kind 3: empty glyph
+        let mut g = PGlyph { name, export: true, adv: vec![], contours: vec![], comps: vec![] };
+        let a0 = rng.range(0, 900) as f64;
+        for l in 0..nloc {
+            if l == 0 {
+                g.adv.push(a0); g.contours.push(c0.clone()); g.comps.push(k0.clone());
+            } else {
+                g.adv.push(a0 + rng.range(-30, 30) as f64);
+                g.contours.push(c0.iter().map(|c| vary(rng, c)).collect());
+                g.comps.push(k0.iter().map(|(b, t)| { let mut t = *t; t[4] += rng.range(-40, 40) as f64; t[5] += rng.range(-40, 40) as f64; (b.clone(), t) }).collect());
+            }
+        }
+        gs.push(g);
+        sizes.push(size);
+    }
+    // non-export: glyphs used as components, with probability 1/3 each (never all)
+    let used: HashSet<String> = gs.iter().flat_map(|g| g.comps[0].iter().map(|c| c.0.clone())).collect();
+    for g in gs.iter_mut().skip(1) {
+        if used.contains(&g.name) && rng.chance(1, 3) { g.export = false; }
+    }
+    if gs.iter().skip(1).all(|g| !g.export) { for g in gs.iter_mut() { g.export = true; } }
+    (gs, nloc)
+}
+
+fn loc_of(l: usize) -> NormalizedLocation {
+    NormalizedLocation::for_pos(&[("wght", l as f64)])
+}
+
+/// Drives the real GlyphOrderWork through the public fontir Context on synthetic IR glyphs.
+pub fn run_pure(args: &Args) {
+    let seed = args.seed;
+    crate::run_cases("c12", args, move |i| {
+        let mut rng = Rng::for_case(seed, "c12", i);
+        let (gs, nloc) = gen_forest(&mut rng);
+        let bits = flag_sets()[rng.below(16)];
+        let mut f = vec![
+            S::k1("flags", S::usize(bits as usize)),
+            S::k1("order", S::list(gs.iter().map(|g| S::str(&g.name)))),
+            S::k1("skip", S::list(gs.iter().filter(|g| !g.export).map(|g| S::str(&g.name)))),
+            S::k1("locs", S::list((0..nloc).map(|l| S::list(gs.iter().map(|g| pglyph_sexp(g, l)))))),
+        ];
+        let r = std::panic::catch_unwind(|| -> Result<(Vec<String>, Vec<Vec<PGlyph>>), String> {
+            let locations: Vec<NormalizedLocation> = (0..nloc).map(loc_of).collect();
+            let meta = ir::StaticMetadata::new(1000, Default::default(), vec![Axis::for_test("wght")], Vec::new(),
+                locations.iter().cloned().collect(), None, 0.0, None, false).map_err(|e| format!("meta:{e}"))?;
+            let ctx = Context::new_root(Flags::from_bits_truncate(bits), None).copy_for_work(Access::All, Access::All);
+            ctx.static_metadata.set(meta);
+            let mut order = ir::GlyphOrder::new();
+            for g in &gs {
+                order.insert(GlyphName::new(&g.name));
+                let mut sources = HashMap::new();
+                for l in 0..nloc {
+                    sources.insert(loc_of(l), ir::GlyphInstance {
+                        width: g.adv[l], height: None, vertical_origin: None,
+                        contours: g.contours[l].iter().map(|c| bez(c)).collect(),
+                        components: g.comps[l].iter().map(|(b, t)| ir::Component::new(b.as_str(), Affine::new(*t))).collect(),
+                    });
+                }
+                let glyph = ir::Glyph::new(GlyphName::new(&g.name), g.export, Default::default(), sources).map_err(|e| format!("glyph:{e}"))?;
+                ctx.glyphs.set(glyph);
+            }
+            ctx.preliminary_glyph_order.set(order);
+            ctx.preliminary_gdef_categories.set(ir::PreliminaryGdefCategories { categories: BTreeMap::new(), infer_from_anchors: false, ..Default::default() });
+            fontir::glyph::create_glyph_order_work().exec(&ctx).map_err(|e| format!("exec:{e}"))?;
+            let final_order: Vec<String> = ctx.glyph_order.get().names().map(|n| n.to_string()).collect();
+            let mut out: Vec<Vec<PGlyph>> = vec![];
+            for l in 0..nloc {
+                let mut v = vec![];
+                for n in &final_order {
+                    let g = ctx.get_glyph(n.as_str());
+                    let Some(inst) = g.sources().get(&loc_of(l)) else { return Err(format!("glyph {n} lost location {l}")); };
+                    v.push(PGlyph {
+                        name: n.clone(), export: g.emit_to_binary, adv: vec![inst.width],
+                        contours: vec![inst.contours.iter().flat_map(|c| unbez(c)).collect()],
+                        comps: vec![inst.components.iter().map(|c| (c.base.to_string(), c.transform.as_coeffs())).collect()],
+                    });
+                }
+                out.push(v);
+            }
+            Ok((final_order, out))
+        });
+        let imp = match r {
+            Ok(Ok((order, locs))) => S::kv("impl", [
+                S::k1("result", S::atom("ok")),
+                S::k1("order", S::list(order.iter().map(|n| S::str(n)))),
+                S::k1("locs", S::list(locs.iter().map(|v| S::list(v.iter().map(|g| pglyph_sexp(g, 0)))))),
+            ]),
+            Ok(Err(e)) => S::kv("impl", [S::kv("result", [S::atom("err"), S::str(&e)])]),
+            Err(e) => {
+                let msg = e.downcast_ref::<String>().cloned().or_else(|| e.downcast_ref::<&str>().map(|s| s.to_string())).unwrap_or_default();
+                S::kv("impl", [S::kv("result", [S::atom("panic"), S::str(&msg)])])
+            }
+        };
+        f.push(imp);
+        f
+    });
+}
